@@ -21,6 +21,9 @@ type Msg struct {
 	DeleteSeq   int // event number of the successful final Delete (0 = none)
 	RecSentSeq  int // first time the broker released PUBREC(id)
 	FinalSeq    int // first time the broker released PUBACK(id) resp. PUBCOMP(id)
+	// Inherited marks a transfer which was pending when this generation adopted the session.
+	Inherited    bool
+	InheritedRel bool // it was at the PUBREL stage then
 }
 
 // stripTrailer removes the 12-byte storage trailer of a saved value.
@@ -47,6 +50,17 @@ func (h *H) messages() []*Msg {
 			}
 		}
 	})
+	for _, im := range h.inherited {
+		m := *im
+		m.SaveSeq, m.AcceptedSeq, m.SaveOp = -1, -1, -1
+		m.RelSaveSeq, m.DeleteSeq, m.RecSentSeq, m.FinalSeq = 0, 0, 0, 0
+		if m.InheritedRel {
+			m.RelSaveSeq, m.RecSentSeq = -1, -1
+		}
+		byTopic[m.Req.Topic] = &m
+		byID[m.ID] = &m
+		list = append(list, &m)
+	}
 	for i, op := range ops {
 		if op.Err != nil || op.Key < 0x8000 || op.Key > 0xffff {
 			continue
@@ -92,7 +106,7 @@ func (h *H) messages() []*Msg {
 	}
 	h.WithLock(func() {
 		for _, m := range list {
-			if m.Call.Done && m.Call.Err == nil {
+			if !m.Inherited && m.Call.Done && m.Call.Err == nil {
 				m.AcceptedSeq = m.Call.EndSeq
 			}
 		}
@@ -290,6 +304,12 @@ func (h *H) checkResend(msgs []*Msg, strictOrder bool) (resent int) {
 // checkLifecycle verifies clauses (a), (c), (d) of C01 for the history so far.
 func (h *H) checkLifecycle(msgs []*Msg) {
 	for _, m := range msgs {
+		if m.Inherited {
+			if m.DeleteSeq != 0 && (m.FinalSeq == 0 || m.DeleteSeq < m.FinalSeq) {
+				h.Failf("adopted record %#04x (%q) was deleted at event %d, before the broker released the final acknowledgement (event %d)", m.ID, m.Req.Topic, m.DeleteSeq, m.FinalSeq)
+			}
+			continue
+		}
 		c := m.Call
 		var done bool
 		var cerr error
